@@ -25,6 +25,10 @@ var verifDir = "/verif"
 
 const workerHangTimeout = 120 * time.Second
 
+// names of the schedule points added by the instrumentation pass; handed to the workers so that
+// reports can name them
+var autoSites []string
+
 type violation struct {
 	Class  string
 	Detail string
@@ -133,9 +137,18 @@ func build() (norace, race string) {
 	os.MkdirAll(binDir, 0o755)
 	args := []string{"build", "-tags", "verif"}
 	suffix := ""
+	origRepo := repo
+	if os.Getenv("VERIF_NO_AUTOHOOK") == "" {
+		// build against an instrumented scratch copy of the tree (autohook.go); removed after the build
+		scratch, sites := instrument(repo)
+		defer os.RemoveAll(scratch)
+		repo = scratch
+		autoSites = sites
+		fmt.Printf("simcheck: scratch copy of %s instrumented (%d schedule points added where the tree has no hook)\n", origRepo, len(sites))
+	}
 	if repo != "/repo" {
 		// scratch copy of the repository (sensitivity runs): same module, other replace target
-		h := fmt.Sprintf("%x", hash64(repo))
+		h := fmt.Sprintf("%x", hash64(origRepo))
 		modDir := filepath.Join(verifDir, "restsim", ".mod")
 		os.MkdirAll(modDir, 0o755)
 		mod, err := os.ReadFile(filepath.Join(src, "go.mod"))
@@ -148,7 +161,9 @@ func build() (norace, race string) {
 		sum, _ := os.ReadFile(filepath.Join(src, "go.sum"))
 		os.WriteFile(filepath.Join(modDir, h+".sum"), sum, 0o644)
 		args = append(args, "-modfile="+modfile)
-		suffix = "-" + h
+		if origRepo != "/repo" {
+			suffix = "-" + h
+		}
 	}
 	norace = filepath.Join(binDir, "simworker"+suffix)
 	race = filepath.Join(binDir, "simworker-race"+suffix)
@@ -166,6 +181,9 @@ func build() (norace, race string) {
 		}(i, spec)
 	}
 	wg.Wait()
+	for _, b := range []string{norace, race} {
+		os.WriteFile(b+".sites", []byte(strings.Join(autoSites, "\n")), 0o644)
+	}
 	for i := range errs {
 		if errs[i] != nil {
 			fmt.Fprintf(os.Stderr, "%s\n", outs[i])
